@@ -254,7 +254,9 @@ SuccOf(a, St, l, m) ==
          LET S2 == IF St.res[g].n > 0 /\ St.res[g].idx < 0
                    THEN [St EXCEPT !.res[g].idx = St.nidx, !.nidx = St.nidx + 1] ELSE St
          IN Call(a, l, "watch", "ResPod", 0, "", St, S2,
-                 One([l EXCEPT !.pc = "RV_label", !.cur = S2.res[g].idx], m),
+                 \* no reservation pod left to watch: the wait ends without an index (allocation timeout), like a failed watch
+                 IF St.res[g].n = 0 THEN One([l EXCEPT !.pc = "RV_delres"], m)
+                 ELSE One([l EXCEPT !.pc = "RV_label", !.cur = S2.res[g].idx], m),
                  One([l EXCEPT !.pc = "RV_delres"], m))
     [] l.pc = "RV_delres" ->
          Call(a, l, "delete", "ResPod", g, "", St, DelRes(St, g), RBstart(l, Unlock(m, g, a)), RBstart(l, Unlock(m, g, a)))
